@@ -657,6 +657,7 @@ class Unit:
         track = []
         callees = {}
         forward = []
+        live = {}
         guard_re = None
         for ln, l in block:
             st = l.strip()
@@ -668,6 +669,11 @@ class Unit:
                 ttype = dict((t.split(':') + ['usize'])[:2] for t in h[6:].split())
             elif h.startswith('forward '):
                 forward = h[8:].split()
+            elif h.startswith('live '):
+                # callee parameter => expression it must be given (the live value of a local), e.g. pre_defines=&defines
+                for kv in h[5:].split():
+                    k_, v_ = kv.split('=')
+                    live[k_] = v_
             elif h.startswith('guard '):
                 guard_re = re.compile(h[6:].strip().strip('/'))
             elif h.startswith('callee '):
@@ -716,7 +722,7 @@ class Unit:
         events.sort(key=lambda e: e[0])
         self.rewrites.append(('R-slice recursion skeleton of %s: %d guard(s), %d call(s) kept, everything else dropped' % (
             name, len([e for e in events if e[1] == 'guard']), len([e for e in events if e[1] == 'call'])), where, 1))
-        simple = re.compile(r'^(?:\w+|\d+|true|false|\w+\s*[+-]\s*\d+)$')
+        simple = re.compile(r'^(?:&?\w+|\d+|true|false|\w+\s*[+-]\s*\d+)$')
         for k, kind, payload in events:
             depth = s._depth(lo, k)
             # parenthesis nesting (e.g. inside a closure argument) also counts as nested
@@ -751,6 +757,11 @@ class Unit:
                 for pn in forward:
                     self.lines.append(Line('    assert(%s == %s);' % (amap.get(pn, 'vx_any_%s()' % ttype[pn]), pn),
                                            ('spec', base, tline, name, 'C18.%s-forwarded-to-%s' % (pn, cname), ['C18']), name + '_slice'))
+                for pn, want in live.items():
+                    if pn in amap:
+                        got = re.sub(r'\s+', '', amap[pn])
+                        self.lines.append(Line('    assert(%s);   // %s = %s' % ('true' if got == want else 'false', pn, got),
+                                               ('spec', base, tline, name, 'C05.live-table-passed-to-%s' % cname, ['C05', 'C10']), name + '_slice'))
                 self.lines.append(Line('    match %s { Err(e) => { if vx_nondet() { return Err(e); } } Ok(_) => {} } }' % call, org, name + '_slice'))
 
     # ---------------------------------------------------------------------
